@@ -33,8 +33,9 @@ Definition j_miss dg (f : jfield) : bool :=
             | Some d => negb (length d =? 32)%nat | None => true end
   end.
 
-Definition slot_leb (a b : slot) : bool :=
-  (fst a <? fst b) || ((fst a =? fst b) && bytes_leb (snd a) (snd b)).
+(* fuel_tx::StorageSlot orders by key only and forc uses the stable `sort()`: equal keys keep
+   declaration order *)
+Definition slot_leb (a b : slot) : bool := fst a <=? fst b.
 Fixpoint insert_slot (s : slot) (l : list slot) : list slot :=
   match l with [] => [s] | x :: r => if slot_leb s x then s :: l else x :: insert_slot s r end.
 Definition sort_slots (l : list slot) : list slot := fold_right insert_slot [] l.
